@@ -639,7 +639,9 @@ class _Inliner(ast.NodeTransformer):
             if len(stmts) >= 1 and isinstance(stmts[0], ast.If):
                 a = as_expr(stmts[0].body)
                 b = as_expr(stmts[0].orelse) if stmts[0].orelse and len(stmts) == 1 else (as_expr(stmts[1:]) if not stmts[0].orelse and len(stmts) > 1 else None)
-                if a is not None and b is not None:
+                # predicates only (one arm is a literal True / False): value-producing helpers keep their statement form, which the
+                # path-splitting analyses read better than a conditional expression
+                if a is not None and b is not None and any(isinstance(z, ast.Constant) and isinstance(z.value, bool) for z in (a, b)):
                     return ast.copy_location(ast.IfExp(test=stmts[0].test, body=a, orelse=b), stmts[0])
             return None
 
